@@ -49,10 +49,16 @@ pub(crate) enum DualTcpStream {
     SecureStream(Box<TlsStream<TcpStream>>),
     #[cfg(feature = "tls_openssl")]
     SecureStream(SslStream<TcpStream>),
+    #[cfg(simple_irc_server_verif)]
+    MemStream(tokio::io::DuplexStream),
 }
 
 impl DualTcpStream {
     pub(crate) fn is_secure(&self) -> bool {
+        #[cfg(simple_irc_server_verif)]
+        if matches!(*self, DualTcpStream::MemStream(_)) {
+            return false;
+        }
         !matches!(*self, DualTcpStream::PlainStream(_))
     }
 }
@@ -67,6 +73,8 @@ impl AsyncRead for DualTcpStream {
             DualTcpStream::PlainStream(ref mut t) => Pin::new(t).poll_read(cx, buf),
             #[cfg(any(feature = "tls_openssl", feature = "tls_rustls"))]
             DualTcpStream::SecureStream(ref mut t) => Pin::new(t).poll_read(cx, buf),
+            #[cfg(simple_irc_server_verif)]
+            DualTcpStream::MemStream(ref mut t) => Pin::new(t).poll_read(cx, buf),
         }
     }
 }
@@ -81,6 +89,8 @@ impl AsyncWrite for DualTcpStream {
             DualTcpStream::PlainStream(ref mut t) => Pin::new(t).poll_write(cx, buf),
             #[cfg(any(feature = "tls_openssl", feature = "tls_rustls"))]
             DualTcpStream::SecureStream(ref mut t) => Pin::new(t).poll_write(cx, buf),
+            #[cfg(simple_irc_server_verif)]
+            DualTcpStream::MemStream(ref mut t) => Pin::new(t).poll_write(cx, buf),
         }
     }
 
@@ -89,6 +99,8 @@ impl AsyncWrite for DualTcpStream {
             DualTcpStream::PlainStream(ref mut t) => Pin::new(t).poll_flush(cx),
             #[cfg(any(feature = "tls_openssl", feature = "tls_rustls"))]
             DualTcpStream::SecureStream(ref mut t) => Pin::new(t).poll_flush(cx),
+            #[cfg(simple_irc_server_verif)]
+            DualTcpStream::MemStream(ref mut t) => Pin::new(t).poll_flush(cx),
         }
     }
 
@@ -97,6 +109,8 @@ impl AsyncWrite for DualTcpStream {
             DualTcpStream::PlainStream(ref mut t) => Pin::new(t).poll_shutdown(cx),
             #[cfg(any(feature = "tls_openssl", feature = "tls_rustls"))]
             DualTcpStream::SecureStream(ref mut t) => Pin::new(t).poll_shutdown(cx),
+            #[cfg(simple_irc_server_verif)]
+            DualTcpStream::MemStream(ref mut t) => Pin::new(t).poll_shutdown(cx),
         }
     }
 }
